@@ -227,6 +227,7 @@ def main():
         {"mode": "A", "fields": None, "projection": None},
         {"mode": "C", "fields": ["pos", "normalized_form"], "projection": None},
         {"mode": "B", "fields": None, "projection": "normalized"},
+        {"mode": "C", "fields": None, "projection": "reading"},
     ]
     ops = alphabet()
     for cfg in configs:
